@@ -443,6 +443,7 @@ template<class F> static std::string forked(F f)
 		close(fd[0]);
 		signal(SIGSEGV, SIG_DFL); signal(SIGABRT, SIG_DFL); signal(SIGBUS, SIG_DFL); signal(SIGFPE, SIG_DFL);
 		int dn = open("/dev/null", O_WRONLY); if (dn >= 0) dup2(dn, 2);
+		signal(SIGALRM, SIG_DFL); alarm(10);   // a corrupted list can make the real code loop forever
 		std::string r;
 		try { r = f(); } catch (const std::exception& e) { r = std::string("EXC ") + e.what(); }
 		size_t off = 0;
@@ -455,7 +456,7 @@ template<class F> static std::string forked(F f)
 	close(fd[0]);
 	int st = 0; waitpid(pid, &st, 0);
 	if (WIFSIGNALED(st))
-		return WTERMSIG(st) == SIGABRT ? "Stuck" : "CRASH signal " + std::to_string(WTERMSIG(st));   // SIGABRT = a MOMO_ASSERT of the real code failed
+		return WTERMSIG(st) == SIGABRT ? "Stuck" : WTERMSIG(st) == SIGALRM ? "CRASH timeout (the real code does not terminate)" : "CRASH signal " + std::to_string(WTERMSIG(st));   // SIGABRT = a MOMO_ASSERT of the real code failed
 	return r;
 }
 
